@@ -140,3 +140,54 @@ def mentions_member(nodes: Iterable[ast.AST], enum_simple: str,
                 if d.split('.')[-1] == enum_simple:
                     return True
     return False
+
+
+def derives_from(fn_node: ast.AST, names: Iterable[str], source: str,
+                 depth: int = 8) -> bool:
+    """Some name in `names` is `source` or is bound (assignment, loop,
+    with, unpacking, through containers: `x = c.pop()`, `c = [(a, b)]`,
+    `c.append(y)` / `c.extend(..)`) from an expression that, transitively,
+    mentions `source`.  Flow-insensitive: used to recognise a quantity that
+    travels through locals (a work-list entry, an unpacked pair)."""
+    feeds = {}
+
+    def add(tgt, value):
+        for t in ast.walk(tgt):
+            if isinstance(t, ast.Name):
+                feeds.setdefault(t.id, set()).update(
+                    x.id for x in ast.walk(value) if isinstance(x, ast.Name))
+    for n in ast.walk(fn_node):
+        if isinstance(n, ast.Assign):
+            for t in n.targets:
+                add(t, n.value)
+        elif isinstance(n, (ast.AnnAssign, ast.AugAssign)) and \
+                n.value is not None:
+            add(n.target, n.value)
+        elif isinstance(n, (ast.For, ast.AsyncFor)):
+            add(n.target, n.iter)
+        elif isinstance(n, ast.comprehension):
+            add(n.target, n.iter)
+        elif isinstance(n, ast.NamedExpr):
+            add(n.target, n.value)
+        elif isinstance(n, (ast.With, ast.AsyncWith)):
+            for it in n.items:
+                if it.optional_vars is not None:
+                    add(it.optional_vars, it.context_expr)
+        elif isinstance(n, ast.Call) and isinstance(n.func, ast.Attribute) \
+                and n.func.attr in ('append', 'extend', 'add', 'insert',
+                                    'appendleft', 'update', 'push') \
+                and isinstance(n.func.value, ast.Name):
+            for a in n.args:
+                feeds.setdefault(n.func.value.id, set()).update(
+                    x.id for x in ast.walk(a) if isinstance(x, ast.Name))
+    seen = set()
+    todo = [(x, 0) for x in names]
+    while todo:
+        x, d = todo.pop()
+        if x == source:
+            return True
+        if x in seen or d >= depth:
+            continue
+        seen.add(x)
+        todo.extend((y, d + 1) for y in feeds.get(x, ()))
+    return False
